@@ -1,3 +1,825 @@
-//! C20 stub (being written)
+//! C20 — no panics: every entry point returns Ok or Err on arbitrary input, every Ok object
+//! survives the downstream pipeline, every Err / warning renders.
+//!
+//! Bounded-exhaustive sweeps (token sequences, JSON structural mutations, short byte strings,
+//! single-byte substitutions, nesting to depth 48) are run in CHILD PROCESSES (this executable
+//! re-invoked with MC_C20_CHILD=<spec>). Each child logs the case index before each case, so an
+//! abort (stack overflow, OOM, SIGSEGV) is attributed to one input; a watchdog attributes
+//! non-termination. Oracle: the call returns (catch_unwind sees no panic), the process survives,
+//! and no single case needs more than 10 s when run alone.
+#[path = "c20_ep.rs"]
+mod ep;
+#[path = "c20_gen.rs"]
+mod gen;
+
 use crate::harness::*;
-pub fn run(_tier: Tier, _replay: Option<&str>) -> i32 { 2 }
+use ep::{hex, unhex, Fix, Run, Seed};
+use gen::*;
+use serde_json::{json, Value as J};
+use std::collections::{BTreeMap, VecDeque};
+use std::os::unix::fs::FileExt;
+use std::os::unix::process::ExitStatusExt;
+use std::process::{Command, Stdio};
+use std::sync::atomic::{AtomicU64, Ordering};
+use std::sync::Mutex;
+use std::time::{Duration, Instant};
+
+const CHILD_ENV: &str = "MC_C20_CHILD";
+/// a case that needs longer than this when run alone is reported as non-termination
+const ALONE_LIMIT_S: f64 = 10.0;
+/// a child whose case log does not advance for this long is killed and the case re-run alone
+const STALL_S: f64 = 25.0;
+/// address-space limit of a child (KiB) so that a runaway allocation aborts the child only
+const CHILD_AS_LIMIT_KB: u64 = 8 * 1024 * 1024;
+const MAX_ABORTS: u64 = 40;
+
+// ---------------------------------------------------------------------------------------------
+// families
+// ---------------------------------------------------------------------------------------------
+struct Spec {
+    name: String,
+    /// rough cost of one case in microseconds, only used to order the shards
+    cost: u64,
+    build: Box<dyn Fn() -> Box<dyn Family> + Send + Sync>,
+}
+
+fn seq(name: String, alphabet: &'static [&'static str], extra: &'static [&'static str], max_len: u32, sep: &'static str, pos: (&'static str, &'static str, &'static str, u64), shard: u64) -> Spec {
+    let n = name.clone();
+    Spec {
+        name,
+        cost: 250,
+        build: Box::new(move || {
+            let mut a: Vec<&'static str> = alphabet.to_vec();
+            a.extend_from_slice(extra);
+            Box::new(SeqFam { name: n.clone(), alphabet: a, min_len: 0, max_len, sep, prefix: pos.1, suffix: pos.2, route: pos.3, shard })
+        }),
+    }
+}
+
+fn is_est(name: &str) -> bool {
+    name.starts_with("est-") || name.contains("policy-set") || name.starts_with("ffi-authorization") || name.starts_with("ffi-validation")
+}
+
+fn nest_family() -> ListFam {
+    let mut items: Vec<(Vec<u8>, u64)> = vec![];
+    for d in 1..=MAX_DEPTH {
+        for (_, e) in nested_exprs(d) {
+            items.push((format!("{POLICY_HEAD} when {{ {e} }};").into_bytes(), R_POLICY));
+            items.push((e.into_bytes(), R_EXPR | R_NAME));
+        }
+        for (_, p) in nested_policies(d) {
+            items.push((p.into_bytes(), R_POLICY));
+        }
+        for (_, s) in nested_schemas(d) {
+            items.push((s.into_bytes(), R_CSCHEMA));
+        }
+        for (_, j, r) in nested_json(d) {
+            items.push((j.into_bytes(), r | R_FILE));
+        }
+    }
+    ListFam { name: "nest".into(), items, shard: 150 }
+}
+
+fn specs(tier: Tier, seeds: &std::sync::Arc<Vec<Seed>>) -> Vec<Spec> {
+    let q = tier == Tier::Quick;
+    let mut v: Vec<Spec> = vec![];
+    let tok_len = tier.pick(3, 4);
+    let wide_len = tier.pick(2, 3);
+    let esc_len = tier.pick(4, 5);
+    let big = tier.pick(4000, 20000);
+    for pos in policy_positions() {
+        v.push(seq(format!("tok-policy:{}", pos.0), POLICY_TOKENS, &[], tok_len, " ", pos, big));
+        if ["when", "top", "scope-all"].contains(&pos.0) {
+            v.push(seq(format!("tok-policy-wide:{}", pos.0), POLICY_TOKENS_WIDE, POLICY_TOKENS_WIDE_EXTRA, wide_len, " ", pos, big));
+        }
+    }
+    for pos in schema_positions() {
+        v.push(seq(format!("tok-schema:{}", pos.0), SCHEMA_TOKENS, &[], tok_len, " ", pos, big));
+        if ["top", "namespace-body", "attr-type"].contains(&pos.0) {
+            v.push(seq(format!("tok-schema-wide:{}", pos.0), SCHEMA_TOKENS_WIDE, &[], wide_len, " ", pos, big));
+        }
+    }
+    for pos in escape_positions() {
+        v.push(seq(format!("escape:{}", pos.0), ESCAPE_CHARS, &[], esc_len, "", pos, big));
+    }
+    v.push(Spec {
+        name: "bytes".into(),
+        cost: 4000,
+        build: Box::new(move || Box::new(ListFam { name: "bytes".into(), items: short_bytes(!q).into_iter().map(|b| (b, R_ALL)).collect(), shard: tier.pick(120, 1000) })),
+    });
+    v.push(Spec { name: "nest".into(), cost: 6000, build: Box::new(|| Box::new(nest_family())) });
+    {
+        let s = seeds.clone();
+        v.push(Spec {
+            name: "cross".into(),
+            cost: 20000,
+            build: Box::new(move || Box::new(ListFam { name: "cross".into(), items: s.iter().map(|x| (x.bytes.clone(), R_ALL)).collect(), shard: 8 })),
+        });
+    }
+    for (i, seed) in seeds.iter().enumerate() {
+        let s = seeds.clone();
+        let full_alphabet = !q || seed.kind == "proto";
+        let name = format!("subst:{}", seed.name);
+        let n = name.clone();
+        v.push(Spec {
+            name,
+            cost: if seed.kind == "text" { 1500 } else { 800 },
+            build: Box::new(move || {
+                let alphabet: Vec<u8> = if full_alphabet { (0..=255u8).collect() } else { BYTE_ALPHABET_40.to_vec() };
+                Box::new(SubstFam { name: n.clone(), doc: s[i].bytes.clone(), alphabet, route: s[i].route | if s[i].kind == "proto" { 0 } else { R_FILE }, shard: 1200 })
+            }),
+        });
+        if seed.kind == "json" {
+            let s = seeds.clone();
+            let name = format!("json-mut1:{}", seed.name);
+            v.push(Spec {
+                name,
+                cost: 900,
+                build: Box::new(move || {
+                    let doc: J = serde_json::from_slice(&s[i].bytes).unwrap_or(J::Null);
+                    Box::new(JsonMutFam::new(&s[i].name, &doc, s[i].route, if is_est(&s[i].name) { EST_KEYS } else { &[] }))
+                }),
+            });
+            if !q {
+                let s = seeds.clone();
+                let name = format!("json-mut2:{}", seed.name);
+                v.push(Spec {
+                    name,
+                    cost: 700,
+                    build: Box::new(move || {
+                        let doc: J = serde_json::from_slice(&s[i].bytes).unwrap_or(J::Null);
+                        Box::new(JsonPairFam::new(&s[i].name, &doc, s[i].route))
+                    }),
+                });
+            }
+        }
+    }
+    v
+}
+
+/// every single mutation of a JSON document, applied on demand
+struct JsonMutFam {
+    name: String,
+    doc: JV,
+    muts: Vec<Mut>,
+    route: u64,
+}
+
+impl JsonMutFam {
+    fn new(name: &str, doc: &J, route: u64, extra_keys: &[&str]) -> JsonMutFam {
+        let d = JV::from_serde(doc);
+        let muts = mutations(&d, true, extra_keys);
+        JsonMutFam { name: format!("json-mut1:{name}"), doc: d, muts, route }
+    }
+}
+
+impl Family for JsonMutFam {
+    fn name(&self) -> String {
+        self.name.clone()
+    }
+    fn count(&self) -> u64 {
+        self.muts.len() as u64 + 1
+    }
+    fn get(&self, i: u64) -> Input {
+        let d = if i == 0 { self.doc.clone() } else { apply(&self.doc, &self.muts[(i - 1) as usize]) };
+        Input { bytes: d.text().into_bytes(), route: self.route }
+    }
+    fn shard(&self) -> u64 {
+        1000
+    }
+}
+
+// ---------------------------------------------------------------------------------------------
+// child side
+// ---------------------------------------------------------------------------------------------
+fn fnv_bytes(b: &[u8], route: u64) -> u64 {
+    let mut h: u64 = 0xcbf29ce484222325 ^ route.wrapping_mul(0x9e3779b97f4a7c15);
+    for x in b {
+        h ^= *x as u64;
+        h = h.wrapping_mul(0x100000001b3);
+    }
+    h
+}
+
+fn load_seeds(dir: &str) -> Result<std::sync::Arc<Vec<Seed>>, String> {
+    let txt = std::fs::read_to_string(format!("{dir}/seeds.json")).map_err(|e| format!("seeds.json: {e}"))?;
+    let j: J = serde_json::from_str(&txt).map_err(|e| format!("seeds.json: {e}"))?;
+    ep::seeds_from_json(&j).map(std::sync::Arc::new).ok_or_else(|| "seeds.json malformed".to_string())
+}
+
+fn first_line(s: &str) -> String {
+    s.lines().next().unwrap_or("").chars().take(140).collect()
+}
+
+fn lossy(b: &[u8]) -> String {
+    let s = String::from_utf8_lossy(b);
+    if s.len() > 600 {
+        let mut cut = 600;
+        while !s.is_char_boundary(cut) {
+            cut -= 1;
+        }
+        format!("{}…[{} bytes]", &s[..cut], b.len())
+    } else {
+        s.into_owned()
+    }
+}
+
+fn child_main(tier: Tier, spec: &str) -> i32 {
+    let spec: J = match serde_json::from_str(spec) {
+        Ok(j) => j,
+        Err(e) => {
+            eprintln!("C20 child: bad spec: {e}");
+            return 2;
+        }
+    };
+    let dir = spec["dir"].as_str().unwrap_or("").to_string();
+    let id = spec["id"].as_str().unwrap_or("x").to_string();
+    let fx = match Fix::new() {
+        Ok(f) => f,
+        Err(e) => {
+            eprintln!("C20 child: fixture construction failed: {e}");
+            return 2;
+        }
+    };
+    ep::install_panic_hook();
+    let mut run = Run::new();
+    ep::preparse_fixed(&mut run);
+    let mut res_panics: Vec<J> = vec![];
+    let mut seen_fp: BTreeMap<String, u64> = BTreeMap::new();
+    let mut keys: Vec<u8> = vec![];
+    let mut cases = 0u64;
+    let mut slowest = (0.0f64, 0u64);
+    let mut sample: Option<J> = None;
+    let log = match std::fs::File::create(format!("{dir}/{id}.log")) {
+        Ok(f) => f,
+        Err(e) => {
+            eprintln!("C20 child: cannot create log: {e}");
+            return 2;
+        }
+    };
+    let mut one = |run: &mut Run, index: u64, fam: &str, bytes: &[u8], route: u64| {
+        let _ = log.write_at(format!("{index:>19}\n").as_bytes(), 0);
+        run.any_ok = false;
+        let t0 = Instant::now();
+        ep::run_case(run, &fx, bytes, route);
+        let dt = t0.elapsed().as_secs_f64();
+        if dt > slowest.0 {
+            slowest = (dt, index);
+        }
+        cases += 1;
+        let k = (fnv_bytes(bytes, route) << 1) | run.any_ok as u64;
+        keys.extend_from_slice(&k.to_le_bytes());
+        if sample.is_none() {
+            sample = Some(json!({"family": fam, "index": index, "input": lossy(bytes), "accepted_somewhere": run.any_ok}));
+        }
+        for p in run.panics.drain(..) {
+            let fp = format!("panic:{}:{}", p.label, first_line(&p.msg));
+            let n = seen_fp.entry(fp.clone()).or_insert(0);
+            *n += 1;
+            if *n == 1 && res_panics.len() < 40 {
+                res_panics.push(json!({"fingerprint": fp, "label": p.label, "msg": p.msg, "loc": p.loc, "family": fam, "index": index, "route": route, "input_hex": hex(bytes)}));
+            }
+        }
+    };
+    match spec["mode"].as_str() {
+        Some("range") => {
+            let seeds = match load_seeds(&dir) {
+                Ok(s) => s,
+                Err(e) => {
+                    eprintln!("C20 child: {e}");
+                    return 2;
+                }
+            };
+            let sp = specs(tier, &seeds);
+            let fi = spec["fam"].as_u64().unwrap_or(u64::MAX) as usize;
+            let Some(s) = sp.get(fi) else {
+                eprintln!("C20 child: no family {fi}");
+                return 2;
+            };
+            let fam = (s.build)();
+            let (start, end) = (spec["start"].as_u64().unwrap_or(0), spec["end"].as_u64().unwrap_or(0));
+            if end > fam.count() {
+                eprintln!("C20 child: range {start}..{end} outside family {} of {}", s.name, fam.count());
+                return 2;
+            }
+            let name = fam.name();
+            for i in start..end {
+                let inp = fam.get(i);
+                one(&mut run, i, &name, &inp.bytes, inp.route);
+            }
+        }
+        Some("single") => {
+            let bytes = match std::fs::read(spec["input"].as_str().unwrap_or("")) {
+                Ok(b) => b,
+                Err(e) => {
+                    eprintln!("C20 child: cannot read input: {e}");
+                    return 2;
+                }
+            };
+            run.stage_log = std::fs::File::create(format!("{dir}/{id}.stage")).ok();
+            let route = spec["route"].as_u64().unwrap_or(R_ALL);
+            one(&mut run, spec["index"].as_u64().unwrap_or(0), spec["family"].as_str().unwrap_or("single"), &bytes, route);
+        }
+        _ => {
+            eprintln!("C20 child: bad mode");
+            return 2;
+        }
+    }
+    drop(one);
+    let outcomes: BTreeMap<String, (u64, u64)> = run.outcomes.iter().map(|(k, v)| (k.to_string(), *v)).collect();
+    let res = json!({
+        "cases": cases, "calls": run.calls, "outcomes": outcomes, "panics": res_panics,
+        "panic_counts": seen_fp, "slowest_s": slowest.0, "slowest_index": slowest.1, "sample": sample,
+    });
+    if std::fs::write(format!("{dir}/{id}.keys"), &keys).is_err() || std::fs::write(format!("{dir}/{id}.res.json"), res.to_string()).is_err() {
+        eprintln!("C20 child: cannot write result");
+        return 2;
+    }
+    0
+}
+
+// ---------------------------------------------------------------------------------------------
+// parent side
+// ---------------------------------------------------------------------------------------------
+#[derive(Clone, Debug)]
+struct Shard {
+    fam: usize,
+    start: u64,
+    end: u64,
+    cost: u64,
+}
+
+enum ChildEnd {
+    Done(J, Vec<u8>),
+    /// died: (description, signal or exit code text, first stderr line)
+    Died(String),
+    Stalled,
+    Machinery(String),
+}
+
+struct Parent {
+    tier: Tier,
+    dir: String,
+    exe: std::path::PathBuf,
+    next_id: AtomicU64,
+    children: AtomicU64,
+}
+
+fn read_logged_index(path: &str) -> Option<u64> {
+    let s = std::fs::read_to_string(path).ok()?;
+    s.lines().next()?.trim().parse().ok()
+}
+
+impl Parent {
+    fn spawn(&self, spec: &J, id: &str) -> std::io::Result<std::process::Child> {
+        let err = std::fs::File::create(format!("{}/{id}.err", self.dir))?;
+        self.children.fetch_add(1, Ordering::Relaxed);
+        let mut c = if std::path::Path::new("/bin/sh").exists() {
+            let mut c = Command::new("/bin/sh");
+            c.arg("-c").arg(format!("ulimit -v {CHILD_AS_LIMIT_KB} 2>/dev/null; exec \"$0\" \"$@\"")).arg(&self.exe);
+            c
+        } else {
+            Command::new(&self.exe)
+        };
+        c.args(["C20", "--tier", self.tier.name()]).env(CHILD_ENV, spec.to_string()).stdin(Stdio::null()).stdout(Stdio::null()).stderr(Stdio::from(err)).spawn()
+    }
+
+    /// run one child to its end, watching its case log
+    fn run_child(&self, spec: &J, id: &str, stall_s: f64) -> ChildEnd {
+        let mut child = match self.spawn(spec, id) {
+            Ok(c) => c,
+            Err(e) => return ChildEnd::Machinery(format!("cannot spawn child: {e}")),
+        };
+        let log = format!("{}/{id}.log", self.dir);
+        let mut last = (None::<u64>, Instant::now());
+        let mut polls = 0u64;
+        loop {
+            match child.try_wait() {
+                Ok(Some(st)) => {
+                    let errtxt = std::fs::read_to_string(format!("{}/{id}.err", self.dir)).unwrap_or_default();
+                    if st.success() {
+                        let res = std::fs::read_to_string(format!("{}/{id}.res.json", self.dir)).ok().and_then(|s| serde_json::from_str::<J>(&s).ok());
+                        let keys = std::fs::read(format!("{}/{id}.keys", self.dir)).unwrap_or_default();
+                        return match res {
+                            Some(r) => ChildEnd::Done(r, keys),
+                            None => ChildEnd::Machinery(format!("child {id} exited 0 without a result file; stderr: {}", first_line(&errtxt))),
+                        };
+                    }
+                    if st.code() == Some(2) {
+                        return ChildEnd::Machinery(format!("child {id}: {}", first_line(&errtxt)));
+                    }
+                    let how = match (st.signal(), st.code()) {
+                        (Some(s), _) => format!("signal {s}"),
+                        (_, Some(c)) => format!("exit code {c}"),
+                        _ => "unknown status".to_string(),
+                    };
+                    let msg = errtxt.lines().filter(|l| !l.trim().is_empty()).take(3).collect::<Vec<_>>().join(" | ");
+                    return ChildEnd::Died(format!("{how}; stderr: {}", msg.chars().take(300).collect::<String>()));
+                }
+                Ok(None) => {}
+                Err(e) => return ChildEnd::Machinery(format!("wait failed: {e}")),
+            }
+            polls += 1;
+            std::thread::sleep(Duration::from_millis(if polls < 50 { 4 } else { 25 }));
+            if polls % 20 == 0 {
+                let cur = read_logged_index(&log);
+                if cur != last.0 {
+                    last = (cur, Instant::now());
+                } else if last.1.elapsed().as_secs_f64() > stall_s {
+                    let _ = child.kill();
+                    let _ = child.wait();
+                    return ChildEnd::Stalled;
+                }
+            }
+        }
+    }
+
+    fn new_id(&self, prefix: &str) -> String {
+        format!("{prefix}{}", self.next_id.fetch_add(1, Ordering::Relaxed))
+    }
+
+    /// run one input alone (own process, per-call stage log, 10 s limit)
+    fn run_alone(&self, family: &str, index: u64, bytes: &[u8], route: u64) -> Alone {
+        let id = self.new_id("single");
+        let input = format!("{}/{id}.input", self.dir);
+        if let Err(e) = std::fs::write(&input, bytes) {
+            return Alone::Machinery(format!("cannot write {input}: {e}"));
+        }
+        let spec = json!({"mode": "single", "dir": self.dir, "id": id, "input": input, "route": route, "family": family, "index": index});
+        let t0 = Instant::now();
+        let end = self.run_child(&spec, &id, ALONE_LIMIT_S);
+        let secs = t0.elapsed().as_secs_f64();
+        let stage = std::fs::read_to_string(format!("{}/{id}.stage", self.dir)).ok().and_then(|s| s.lines().next().map(|l| l.trim().to_string())).unwrap_or_else(|| "<before first call>".to_string());
+        match end {
+            ChildEnd::Done(r, k) => Alone::Finished(r, k, secs),
+            ChildEnd::Died(how) => Alone::Died(stage, how),
+            ChildEnd::Stalled => Alone::TimedOut(stage, secs),
+            ChildEnd::Machinery(m) => Alone::Machinery(m),
+        }
+    }
+}
+
+enum Alone {
+    Finished(J, Vec<u8>, f64),
+    Died(String, String),
+    TimedOut(String, f64),
+    Machinery(String),
+}
+
+fn replay_doc(family: &str, index: u64, bytes: &[u8], route: u64) -> J {
+    json!({"family": family, "index": index, "route": route, "input_hex": hex(bytes), "input_text": lossy(bytes)})
+}
+
+#[derive(Default)]
+struct FamStat {
+    cases: u64,
+    calls: u64,
+}
+
+fn merge_result(ctx: &Ctx, stats: &Mutex<BTreeMap<String, FamStat>>, fam: &str, r: &J, keys: &[u8], slow: &Mutex<(f64, String, u64)>) {
+    let mut l = Local::default();
+    l.evaluations = r["cases"].as_u64().unwrap_or(0);
+    l.transitions = r["calls"].as_u64().unwrap_or(0);
+    for c in keys.chunks_exact(8) {
+        let k = u64::from_le_bytes([c[0], c[1], c[2], c[3], c[4], c[5], c[6], c[7]]);
+        l.distinct.push(k >> 1);
+        if k & 1 == 1 {
+            l.nontrivial.push(k >> 1);
+        }
+    }
+    if let Some(o) = r["outcomes"].as_object() {
+        for (k, v) in o {
+            let (ok, err) = (v[0].as_u64().unwrap_or(0), v[1].as_u64().unwrap_or(0));
+            if ok > 0 {
+                l.outcomes.insert(format!("{k}:ok"), ok);
+            }
+            if err > 0 {
+                l.outcomes.insert(format!("{k}:err"), err);
+            }
+        }
+    }
+    {
+        let mut s = stats.lock().unwrap();
+        let e = s.entry(fam.to_string()).or_default();
+        e.cases += l.evaluations;
+        e.calls += l.transitions;
+    }
+    {
+        let mut s = slow.lock().unwrap();
+        let t = r["slowest_s"].as_f64().unwrap_or(0.0);
+        if t > s.0 {
+            *s = (t, fam.to_string(), r["slowest_index"].as_u64().unwrap_or(0));
+        }
+    }
+    if let Some(ps) = r["panics"].as_array() {
+        for p in ps {
+            let fp = p["fingerprint"].as_str().unwrap_or("panic:?").to_string();
+            let bytes = unhex(p["input_hex"].as_str().unwrap_or("")).unwrap_or_default();
+            let n = r["panic_counts"][&fp].as_u64().unwrap_or(1);
+            ctx.violation(
+                fp,
+                format!(
+                    "panic in {} at {}: {}\n(first of {} in this shard) family {} case {} input: {}",
+                    p["label"].as_str().unwrap_or("?"),
+                    p["loc"].as_str().unwrap_or("?"),
+                    p["msg"].as_str().unwrap_or("?"),
+                    n,
+                    p["family"].as_str().unwrap_or("?"),
+                    p["index"],
+                    lossy(&bytes)
+                ),
+                replay_doc(p["family"].as_str().unwrap_or("?"), p["index"].as_u64().unwrap_or(0), &bytes, p["route"].as_u64().unwrap_or(R_ALL)),
+            );
+        }
+    }
+    if let Some(s) = r.get("sample") {
+        if !s.is_null() {
+            ctx.sample(s.clone());
+        }
+    }
+    ctx.merge(l);
+}
+
+fn scratch_dir() -> String {
+    format!("{}/target/scratch/c20/{}", verif_root(), std::process::id())
+}
+
+fn parent(tier: Tier) -> i32 {
+    let ctx = Ctx::new("C20", tier);
+    let dir = scratch_dir();
+    let _ = std::fs::remove_dir_all(&dir);
+    if let Err(e) = std::fs::create_dir_all(&dir) {
+        eprintln!("MACHINERY ERROR: cannot create {dir}: {e}");
+        return 2;
+    }
+    let exe = match std::env::current_exe() {
+        Ok(e) => e,
+        Err(e) => {
+            eprintln!("MACHINERY ERROR: current_exe: {e}");
+            return 2;
+        }
+    };
+    // seeds: built once here (under catch_unwind: a panic while converting the valid seed
+    // documents is itself a violation), shipped to the children through a file
+    let seeds = match ctx.guard("seed construction", || json!({"what": "valid seed documents (see c20_ep.rs build_seeds)"}), ep::build_seeds) {
+        Some(Ok(s)) => std::sync::Arc::new(s),
+        Some(Err(e)) => {
+            eprintln!("MACHINERY ERROR: {e}");
+            return 2;
+        }
+        None => {
+            return ctx.finish("seed construction panicked", json!({}), &[], false);
+        }
+    };
+    quiet_panics();
+    if let Err(e) = std::fs::write(format!("{dir}/seeds.json"), ep::seeds_to_json(&seeds).to_string()) {
+        eprintln!("MACHINERY ERROR: cannot write seeds: {e}");
+        return 2;
+    }
+    let sp = specs(tier, &seeds);
+    let fams: Vec<Box<dyn Family>> = sp.iter().map(|s| (s.build)()).collect();
+    let mut shards: Vec<Shard> = vec![];
+    let mut fam_table: Vec<J> = vec![];
+    let mut total_cases = 0u64;
+    for (i, f) in fams.iter().enumerate() {
+        let n = f.count();
+        total_cases += n;
+        fam_table.push(json!({"family": f.name(), "cases": n}));
+        let step = f.shard().max(1);
+        let mut s = 0;
+        while s < n {
+            let e = (s + step).min(n);
+            shards.push(Shard { fam: i, start: s, end: e, cost: (e - s) * sp[i].cost });
+            s = e;
+        }
+    }
+    shards.sort_by(|a, b| b.cost.cmp(&a.cost));
+    if !shards.is_empty() {
+        let r = (ctx.seed as usize) % shards.len();
+        shards.rotate_left(r);
+    }
+    let n_shards = shards.len();
+    let jobs: usize = std::env::var("MC_C20_JOBS").ok().and_then(|s| s.parse().ok()).unwrap_or(16);
+    let p = Parent { tier, dir: dir.clone(), exe, next_id: AtomicU64::new(0), children: AtomicU64::new(0) };
+    let queue: Mutex<VecDeque<Shard>> = Mutex::new(shards.into());
+    let active = AtomicU64::new(0);
+    let aborts = AtomicU64::new(0);
+    let machinery: Mutex<Option<String>> = Mutex::new(None);
+    let stats: Mutex<BTreeMap<String, FamStat>> = Mutex::new(BTreeMap::new());
+    let slow: Mutex<(f64, String, u64)> = Mutex::new((0.0, String::new(), 0));
+    let alone_runs = AtomicU64::new(0);
+
+    std::thread::scope(|sc| {
+        for _ in 0..jobs {
+            sc.spawn(|| loop {
+                if machinery.lock().unwrap().is_some() {
+                    return;
+                }
+                let sh = {
+                    let mut q = queue.lock().unwrap();
+                    match q.pop_front() {
+                        Some(s) => {
+                            active.fetch_add(1, Ordering::SeqCst);
+                            Some(s)
+                        }
+                        None => None,
+                    }
+                };
+                let Some(sh) = sh else {
+                    if active.load(Ordering::SeqCst) == 0 {
+                        return;
+                    }
+                    std::thread::sleep(Duration::from_millis(10));
+                    continue;
+                };
+                let fam = &fams[sh.fam];
+                let fname = fam.name();
+                let id = p.new_id("shard");
+                let spec = json!({"mode": "range", "dir": p.dir, "id": id, "fam": sh.fam, "start": sh.start, "end": sh.end});
+                match p.run_child(&spec, &id, STALL_S) {
+                    ChildEnd::Done(r, keys) => merge_result(&ctx, &stats, &fname, &r, &keys, &slow),
+                    ChildEnd::Machinery(m) => *machinery.lock().unwrap() = Some(m),
+                    end @ (ChildEnd::Died(_) | ChildEnd::Stalled) => {
+                        // attribute to the logged case, re-run it alone, re-queue the rest
+                        let idx = read_logged_index(&format!("{}/{id}.log", p.dir)).filter(|i| *i >= sh.start && *i < sh.end);
+                        match idx {
+                            None => *machinery.lock().unwrap() = Some(format!("child {id} of family {fname} ended abnormally before logging a case ({})", if let ChildEnd::Died(h) = &end { h.as_str() } else { "stalled" })),
+                            Some(i) => {
+                                let inp = fam.get(i);
+                                alone_runs.fetch_add(1, Ordering::Relaxed);
+                                let alone = p.run_alone(&fname, i, &inp.bytes, inp.route);
+                                let rd = replay_doc(&fname, i, &inp.bytes, inp.route);
+                                match (&end, alone) {
+                                    (_, Alone::Machinery(m)) => *machinery.lock().unwrap() = Some(m),
+                                    (ChildEnd::Died(how), Alone::Died(stage, how2)) => {
+                                        aborts.fetch_add(1, Ordering::Relaxed);
+                                        ctx.violation(format!("abort:{stage}:{}", first_line(&how2).split(';').next().unwrap_or("")), format!("process died ({how2}) in `{stage}`; in the sweep: {how}; family {fname} case {i} input: {}", lossy(&inp.bytes)), rd);
+                                    }
+                                    (ChildEnd::Died(how), Alone::Finished(r, keys, _)) => {
+                                        aborts.fetch_add(1, Ordering::Relaxed);
+                                        merge_result(&ctx, &stats, &fname, &r, &keys, &slow);
+                                        ctx.violation(format!("abort:{fname}:only-inside-sweep"), format!("process died ({how}) at family {fname} case {i}, but the case finishes when run alone; input: {}", lossy(&inp.bytes)), rd);
+                                    }
+                                    (ChildEnd::Died(how), Alone::TimedOut(stage, secs)) => {
+                                        aborts.fetch_add(1, Ordering::Relaxed);
+                                        ctx.violation(format!("abort:{stage}:died-in-sweep-hangs-alone"), format!("process died ({how}) in the sweep and exceeds {secs:.0}s alone in `{stage}`; family {fname} case {i} input: {}", lossy(&inp.bytes)), rd);
+                                    }
+                                    (_, Alone::TimedOut(stage, secs)) => {
+                                        aborts.fetch_add(1, Ordering::Relaxed);
+                                        ctx.violation(format!("non-termination:{stage}"), format!("a single case does not finish within {secs:.1}s when run alone (in `{stage}`); family {fname} case {i} input: {}", lossy(&inp.bytes)), rd);
+                                    }
+                                    (_, Alone::Died(stage, how2)) => {
+                                        aborts.fetch_add(1, Ordering::Relaxed);
+                                        ctx.violation(format!("abort:{stage}:{}", first_line(&how2).split(';').next().unwrap_or("")), format!("process died ({how2}) in `{stage}` (the sweep had stalled on it); family {fname} case {i} input: {}", lossy(&inp.bytes)), rd);
+                                    }
+                                    (_, Alone::Finished(r, keys, _)) => {
+                                        // slow inside a loaded sweep but fine alone: not a violation
+                                        merge_result(&ctx, &stats, &fname, &r, &keys, &slow);
+                                    }
+                                }
+                                if aborts.load(Ordering::Relaxed) <= MAX_ABORTS {
+                                    let mut q = queue.lock().unwrap();
+                                    if i > sh.start {
+                                        q.push_back(Shard { fam: sh.fam, start: sh.start, end: i, cost: 0 });
+                                    }
+                                    if i + 1 < sh.end {
+                                        q.push_back(Shard { fam: sh.fam, start: i + 1, end: sh.end, cost: 0 });
+                                    }
+                                } else {
+                                    ctx.cap_hit(&format!("more than {MAX_ABORTS} aborted cases: the rest of shard {fname} {}..{} was not swept", sh.start, sh.end));
+                                }
+                            }
+                        }
+                    }
+                }
+                active.fetch_sub(1, Ordering::SeqCst);
+            });
+        }
+    });
+    if let Some(m) = machinery.lock().unwrap().take() {
+        eprintln!("MACHINERY ERROR: {m}");
+        let _ = std::fs::remove_dir_all(&dir);
+        return 2;
+    }
+    let swept = ctx.evaluations.load(Ordering::Relaxed);
+    let exhaustive = swept == total_cases;
+    if !exhaustive && ctx.violation_seen() == 0 {
+        eprintln!("MACHINERY ERROR: {swept} of {total_cases} cases were swept");
+        return 2;
+    }
+    {
+        let s = stats.lock().unwrap();
+        for row in fam_table.iter_mut() {
+            let name = row["family"].as_str().unwrap_or("").to_string();
+            if let Some(st) = s.get(&name) {
+                row["swept"] = json!(st.cases);
+                row["calls"] = json!(st.calls);
+            }
+        }
+    }
+    let stack = Command::new("/bin/sh").arg("-c").arg("ulimit -s").output().ok().map(|o| String::from_utf8_lossy(&o.stdout).trim().to_string()).unwrap_or_default();
+    let sl = slow.lock().unwrap().clone();
+    ctx.set_info("families", J::Array(fam_table));
+    ctx.set_info("child_processes", json!(p.children.load(Ordering::Relaxed)));
+    ctx.set_info("shards", json!(n_shards));
+    ctx.set_info("cases_rerun_alone", json!(alone_runs.load(Ordering::Relaxed)));
+    ctx.set_info("aborted_or_hung_cases", json!(aborts.load(Ordering::Relaxed)));
+    ctx.set_info("slowest_case", json!({"seconds_inside_sweep": sl.0, "family": sl.1, "index": sl.2}));
+    ctx.set_info("child_stack_limit_kb", json!(stack));
+    ctx.set_info("seed_documents", J::Array(seeds.iter().map(|s| json!({"name": s.name, "kind": s.kind, "bytes": s.bytes.len()})).collect()));
+    let _ = std::fs::remove_dir_all(&dir);
+    let q = tier == Tier::Quick;
+    ctx.finish(
+        "case = one input (family, index) fed to every entry point of its route; class = <entry point>:ok|err counted per entry-point call; non-trivial = at least one entry point accepted the input, so a downstream pipeline (print, to_json, to_pst, format, validate strict/permissive/partial/level, authorize, partial authorize, TPE, link, protobuf round trip) ran on it; transitions = guarded calls into cedar (entry points + pipeline steps + error renderings)",
+        json!({
+            "tier": tier.name(),
+            "policy_tokens": {"alphabet": POLICY_TOKENS, "max_len": tier.pick(3, 4), "positions": policy_positions().iter().map(|p| p.0).collect::<Vec<_>>()},
+            "policy_tokens_wide": {"alphabet_size": POLICY_TOKENS_WIDE.len() + POLICY_TOKENS_WIDE_EXTRA.len(), "max_len": tier.pick(2, 3), "positions": ["when", "top", "scope-all"]},
+            "schema_tokens": {"alphabet": SCHEMA_TOKENS, "max_len": tier.pick(3, 4), "positions": schema_positions().iter().map(|p| p.0).collect::<Vec<_>>()},
+            "schema_tokens_wide": {"alphabet_size": SCHEMA_TOKENS_WIDE.len(), "max_len": tier.pick(2, 3), "positions": ["top", "namespace-body", "attr-type"]},
+            "string_escapes": {"alphabet": ESCAPE_CHARS, "max_len": tier.pick(4, 5), "positions": escape_positions().iter().map(|p| p.0).collect::<Vec<_>>()},
+            "bytes": if q { "all byte strings of length <= 1 (257) plus all length-2 strings over a 40-byte alphabet (1600), into every entry point" } else { "all byte strings of length <= 2 (65793) into every entry point" },
+            "byte_substitution": if q { "every position of every seed document x (40-byte alphabet for text/JSON seeds, all 256 values for protobuf seeds), plus every single-byte deletion and every proper prefix" } else { "every position of every seed document x all 256 byte values, plus every single-byte deletion and every proper prefix" },
+            "json_mutations": if q { "every single structural mutation of each JSON seed (delete, 12 retypes, wrap 1/48 deep in array/object, every string -> every other string of the document + 22 pool strings, every key -> every other key of the document + escape keys (+ EST operator keys), duplicate key same/null)" } else { "quick set plus every ordered pair of reduced mutations (delete, null, one retype, duplicate key)" },
+            "nesting_depth": MAX_DEPTH,
+            "per_case_limit_s": ALONE_LIMIT_S,
+        }),
+        &[
+            "each case runs on the main thread of a child process with the inherited stack limit (see child_stack_limit_kb) and an 8 GiB address-space limit",
+            "&str entry points receive the lossy UTF-8 decoding of a byte string; reader-based (`*_file`) and protobuf entry points receive the raw bytes",
+            "nesting is bounded by 48; inputs longer than the bounds are covered only as mutations of the seed documents",
+            "hash-map iteration order is not enumerated",
+        ],
+        exhaustive,
+    )
+}
+
+// ---------------------------------------------------------------------------------------------
+// replay
+// ---------------------------------------------------------------------------------------------
+fn replay(tier: Tier, path: &str) -> i32 {
+    let doc: J = match std::fs::read_to_string(path).ok().and_then(|s| serde_json::from_str(&s).ok()) {
+        Some(d) => d,
+        None => {
+            eprintln!("cannot read replay file {path}");
+            return 2;
+        }
+    };
+    if doc["property"].as_str() != Some("C20") {
+        eprintln!("replay file is not a C20 case");
+        return 2;
+    }
+    let case = &doc["case"];
+    let Some(bytes) = case["input_hex"].as_str().and_then(unhex) else {
+        eprintln!("replay file holds no input (seed construction panic?); re-run the check instead");
+        return 2;
+    };
+    let route = case["route"].as_u64().unwrap_or(R_ALL);
+    let dir = format!("{}/replay", scratch_dir());
+    let _ = std::fs::create_dir_all(&dir);
+    let Ok(exe) = std::env::current_exe() else { return 2 };
+    let p = Parent { tier, dir: dir.clone(), exe, next_id: AtomicU64::new(0), children: AtomicU64::new(0) };
+    println!("replaying family {} case {} ({} bytes): {}", case["family"], case["index"], bytes.len(), lossy(&bytes));
+    let code = match p.run_alone(case["family"].as_str().unwrap_or("replay"), case["index"].as_u64().unwrap_or(0), &bytes, route) {
+        Alone::Machinery(m) => {
+            eprintln!("MACHINERY ERROR: {m}");
+            2
+        }
+        Alone::Died(stage, how) => {
+            println!("  process died in `{stage}`: {how}");
+            1
+        }
+        Alone::TimedOut(stage, secs) => {
+            println!("  no result after {secs:.1}s in `{stage}`");
+            1
+        }
+        Alone::Finished(r, _, secs) => {
+            let ps = r["panics"].as_array().cloned().unwrap_or_default();
+            for x in &ps {
+                println!("  [{}] at {}: {}", x["fingerprint"].as_str().unwrap_or("?"), x["loc"].as_str().unwrap_or("?"), x["msg"].as_str().unwrap_or("?"));
+            }
+            println!("  {} guarded calls, {:.3}s", r["calls"], secs);
+            if ps.is_empty() {
+                println!("no panic on replay");
+                0
+            } else {
+                1
+            }
+        }
+    };
+    let _ = std::fs::remove_dir_all(scratch_dir());
+    if code == 1 {
+        println!("VIOLATION property=C20 replay={path}");
+    }
+    code
+}
+
+pub fn run(tier: Tier, replay_file: Option<&str>) -> i32 {
+    if let Ok(spec) = std::env::var(CHILD_ENV) {
+        return child_main(tier, &spec);
+    }
+    if let Some(p) = replay_file {
+        return replay(tier, p);
+    }
+    parent(tier)
+}
